@@ -74,12 +74,18 @@ class Run(object):
         if self.decoy:
             # another Solver object created (and possibly solved) between the construction
             # and the solve of the one under test: objects must not share state
-            dargv = strategies.build_argv(self.decoy['opts'], self.path, self.inst['na'])
+            dpath = self.path
+            if self.decoy.get('inst'):
+                dpath = write_instance(refmodel.render(self.decoy['inst']), 'decoy.txt')
+            dargv = strategies.build_argv(self.decoy['opts'], dpath, self.inst['na'])
             try:
                 other = make_solver(dargv)
                 if self.decoy.get('solve'):
-                    with refbackend.Backend('eb' if self.backend.mode != 'cbc' else 'cbc'):
+                    with refbackend.Backend('eb' if self.backend.mode != 'cbc' else 'cbc',
+                                            self.backend.choices, salt=self.backend.salt):
                         other.solve(msg=False, timeLimit=None, threads=None, write=False)
+                    other.get_results_long()
+                    other.get_debug()
             except (Violation, Exception):
                 pass        # the decoy's own behaviour is not what this case checks
         for t in range(self.presolves):
@@ -115,6 +121,8 @@ def describe_case(case):
     if case.get('decoy'):
         d['decoy_argv'] = strategies.build_argv(case['decoy']['opts'], '<file>', case['inst']['na'])
         d['decoy_solved'] = bool(case['decoy'].get('solve'))
+        if case['decoy'].get('inst'):
+            d['decoy_instance_file'] = refmodel.render(case['decoy']['inst'])
     for k in ('presolves', 'choices', 'salt', 'mode', 'plan', 'ops', 'time_limit', 'kind', 'matching'):
         if k in case:
             d[k] = case[k]
